@@ -197,11 +197,11 @@ def generate(rng, tier, boost):
         cases.append((502, [template, secrets, m, t, idx, hts, t2, idx2, [nk, plan], EDITS.index(kind) + (100 if c % 8 == 0 else 0)]))
     # engine 503: composite scripts with real signatures and undecodable public keys (a check against
     # a key the library cannot load answers false, whatever was checked before it in the same process)
-    for c in range(70 if big else 35):
+    for c in range(135 if big else 45):
         t = rand_spend(rng)
         idx = rng.randrange(len(t[1]))
         ht = rng.choice([1, 1, 2, 3, 0x81, 0x83])
         if (ht & 0x1f) == 3 and idx >= len(t[2]):
             ht = 1
-        cases.append((503, [secrets_distinct(rng, 2), t, idx, ht, c % 35]))
+        cases.append((503, [secrets_distinct(rng, 2), t, idx, ht, c % 45]))      # 35..44: a signature embedded in the script (kinds 7, 8)
     return cases
